@@ -133,6 +133,11 @@ def workload(make, make2, role):
         finally:
             globals()["sm"] = None
             globals()["aaa_first"] = None
+    elif role == "nested-arg":
+        # the value is an argument of a nested function / a lambda: on their first call the function object is only found
+        # through the locals of the frames on the stack, and the value is one of those locals
+        out.append(type(outer(v)).__name__)
+        out.append(type((lambda z: z)(v)).__name__)
     elif role == "caller-local":
         held = v
         out.append(outer(3))
@@ -164,4 +169,4 @@ def workload(make, make2, role):
 
 
 ROLES = ["arg", "kwarg", "elem", "nested-elem", "dictkey", "setelem", "yield", "return-only", "receiver", "method-arg",
-         "coro-arg", "global", "caller-local", "exception", "consume", "finalizer"]
+         "coro-arg", "global", "nested-arg", "caller-local", "exception", "consume", "finalizer"]
